@@ -40,8 +40,13 @@ def fnv_ext(h, bs):
 
 
 def fnv(bs):
-    """hash() of map.c: FNV-1a constants of the 32-bit variant, computed in unsigned long (64 bit)."""
+    """hash() of map.c as of this writing: FNV-1a constants of the 32-bit variant, computed in
+    unsigned long (64 bit).  Only used to ENGINEER collisions; whether it still is the real hash is
+    asked from the harness (probe_hash_function), and nothing fails if it is not."""
     return fnv_ext(FNV_BASIS, bs)
+
+
+ENGINEER = [True]     # False: the hash function of map.c changed, collision engineering is off
 
 
 def hexs(bs):
@@ -414,6 +419,9 @@ ALPH = b"abcdefghijklmnopqrstuvwxyzABCDEFGHIJKLMNOPQRSTUVWXYZ_0123456789"
 def collision_clusters(rng, prefix, bits, nclusters, size, tail=b""):
     """Identifier-like byte strings prefix+suffix whose FNV-1a hash (of name+tail) agrees in the low
     `bits` bits within a cluster.  Returns a list of clusters (lists of names)."""
+    if not ENGINEER[0]:   # un-engineered random names of the same shape
+        return [list(dict.fromkeys(prefix + bytes(rng.choice(ALPH) for _ in range(4)) for _ in range(size)))
+                for _ in range(nclusters)]
     h0 = fnv_ext(FNV_BASIS, prefix)
     mask = (1 << bits) - 1
     buckets = {}
@@ -498,11 +506,46 @@ def scope_ref_check(ops, out):
     return None
 
 
-def gen_scope_history(ck):
+def scope_harness(ck):
+    """Path of the built scope harness (None after reporting that it no longer builds)."""
+    if not hasattr(ck, "_scope_h"):
+        try:
+            ck._scope_h = ck.build_harness("scope_h.c", ["scope", "map", "util", "targ", "type"])
+        except CompileError as e:
+            ck.harness_broken("scope_h.c", e)
+            ck._scope_h = None
+    return ck._scope_h
+
+
+def harness_hashes(h, names):
+    """The real mapkey() hash of each name (bytes without NUL), one preliminary harness pass."""
+    out, status, err = run_proc(h, "".join("hash %s\n" % hexs(n) for n in names), 60)
+    if status != "ok" or len(out) != len(names) or not all(x.isdigit() for x in out):
+        raise common.Broken("scope harness `hash` pass failed: %s %s" % (status, err[:300]))
+    return [int(x) for x in out]
+
+
+def probe_hash_function(ck):
+    """Is checks/c16.py's fnv() still the hash of /repo/map.c?  If not, only the collision
+    ENGINEERING is switched off; the property and every comparison stay meaningful."""
+    h = scope_harness(ck)
+    if h is None:
+        ENGINEER[0] = False
+        return
+    sample = [b"a", b"abc", b"x_1", b"Zz9", b"_q", b"n" * 300, bytes(range(1, 256))]
+    a = harness_hashes(h, sample)
+    b = harness_hashes(h, sample)           # second process: an address-dependent hash differs here
+    ENGINEER[0] = a == b == [fnv(x) for x in sample]
+    if not ENGINEER[0]:
+        ck.notes.append("collision engineering disabled: hash function changed"
+                        + (" (hash differs from process to process)" if a != b else ""))
+
+
+def gen_scope_history(ck, h):
     rng = ck.rng
     nops = 10000 if ck.quick else 40000
     names = name_pool(rng, 300 if ck.quick else 1500, 9 if ck.quick else 11)
-    keyed = [(fnv(n), hexs(n)) for n in names]
+    keyed = list(zip(harness_hashes(h, names), [hexs(n) for n in names]))   # the REAL hashes feed the model
     ops = []
     for _, cops in corpus("scopehist"):     # each corpus history must return to file scope
         ops.extend(cops)
@@ -548,20 +591,16 @@ def gen_scope_history(ck):
 
 
 def run_ka_scope(ck):
-    try:
-        h = ck.build_harness("scope_h.c", ["scope", "map", "util", "targ", "type"])
-    except CompileError as e:
-        ck.harness_broken("scope_h.c", e)
+    h = scope_harness(ck)
+    if h is None:
         return
-    ops, kinds = gen_scope_history(ck)
+    ops, kinds = gen_scope_history(ck, h)
     text = "\n".join(ops) + "\n"
     t0 = time.time()
     oc, status, err = run_proc(h, text, 15 if ck.quick else 90)
     tnorm = time.time() - t0
     small_timeout = 3.0 if status == "timeout" else max(3.0, 4 * tnorm)
     ck.count(("scope-history", len(ops)))
-    if "hash-mismatch" in oc:
-        raise common.Broken("checks/c16.py: fnv() differs from /repo/map.c mapkey() - update the check")
 
     def fails_ref(o2):
         o, st, _ = run_proc(h, "\n".join(o2) + "\n", small_timeout)
@@ -1310,8 +1349,9 @@ def run_kb(ck):
     stats.update(u.stats)
     kb["big_identifiers"] = len(names)
     cb = 14 if ck.quick else 17
-    grp = collections.Counter(fnv(x) & ((1 << cb) - 1) for x in names)
-    kb["big_names_sharing_low_%d_hash_bits_with_another" % cb] = sum(v for v in grp.values() if v > 1)
+    if ENGINEER[0]:
+        grp = collections.Counter(fnv(x) & ((1 << cb) - 1) for x in names)
+        kb["big_names_sharing_low_%d_hash_bits_with_another" % cb] = sum(v for v in grp.values() if v > 1)
     kb["big_probes"] = u.nchk
     kb["longest_name"] = max(len(n) for n in names)
     kb["constructs"] = dict(stats)
@@ -1340,6 +1380,7 @@ def run(ck):
     ck.lean_build()
     if not ck.proofs_ok:
         ck.notes.append("Props.C16 does not build; searching for a failing input")
+    probe_hash_function(ck)
     parts = os.environ.get("C16_PARTS", "ka-map,ka-scope,kb").split(",")   # debugging aid only
     if "ka-map" in parts:
         run_ka_map(ck)
